@@ -287,6 +287,16 @@ func (c *canonizer) expr(e ast.Expr) string {
 			}
 			return c.typ(tv.Type) + "(" + c.expr(x.Args[0]) + ")"
 		}
+		// helpers that read a map element tolerating a missing key: mapIndexInt(m, k) is m.MapIndex(k).Int() with
+		// zero for an absent key; rendered as that accessor so that the category of the read stays visible
+		if fn := calleeOf(c.info, x); fn != nil && fn.Pkg() != nil && fn.Pkg().Name() == "fast" && len(x.Args) == 2 {
+			switch fn.Name() {
+			case "mapIndexInt":
+				return c.expr(x.Args[0]) + ".MapIndex(" + c.expr(x.Args[1]) + ").⟪Int⟫()"
+			case "mapIndexUint":
+				return c.expr(x.Args[0]) + ".MapIndex(" + c.expr(x.Args[1]) + ").⟪Uint⟫()"
+			}
+		}
 		// reflect accessor of the label's category
 		if sel, ok := unparen(x.Fun).(*ast.SelectorExpr); ok && isReflectValue(c.info.TypeOf(sel.X)) {
 			cat := basicCategory(c.tau)
